@@ -189,6 +189,15 @@ def run_case(spec):
                 skipped += 1
                 continue
         sup = zoo.cls(name)(**p)
+        if seed == 1:
+            # this object has been fitted before, on OTHER points of the same shape with the same labels: nothing derived from that
+            # first training set (constraints, neighbour tables, generated bases) may reach the fit that is judged below
+            try:
+                with warnings.catch_warnings():
+                    warnings.simplefilter('ignore')
+                    sup.fit(X[::-1] * np.array([1.0, 2.0] + [0.5] * (X.shape[1] - 2))[:X.shape[1]] + 0.25, y)
+            except Exception:
+                sup = zoo.cls(name)(**p)
         cap = None
         lda_basis = []
         try:
